@@ -317,7 +317,102 @@ def r5_every_subpattern_expanded_once_in_place(ctx):
            witness="((fn [& {:keys [c]}] c) :c {:x 1}) must be {:x 1}")
 
 
+def _unthread(form):
+    """(->> a (f x) (g y)) as nested calls (g y (f x a)); other forms as they are.  Returns a list
+    [head-text, [argument forms...]] for the outermost call, or None."""
+    if L.head(form) in ("->>", "->") and len(form.items) >= 2:
+        last = L.head(form) == "->>"
+        cur = form.items[1]
+        for step in form.items[2:]:
+            if isinstance(step, L.List) and step.items:
+                args = list(step.items[1:])
+                cur = ("call", step.items[0].text(), (args + [cur]) if last else ([cur] + args))
+            else:
+                cur = ("call", step.text(), [cur])
+        return cur
+    if isinstance(form, L.List) and form.items:
+        return ("call", form.items[0].text(), list(form.items[1:]))
+    return None
+
+
+def _mentions(x, name):
+    if isinstance(x, tuple):
+        return any(_mentions(a, name) for a in x[2])
+    return any(isinstance(s, L.Sym) and s.val == name for s in L.walk(x))
+
+
+@rule("C09.R7", floor=3)
+def r7_destructured_names_are_bound_in_source_order(ctx):
+    """A parameter or binding vector reads left to right like a let: a later pattern or init may
+    use, and shadows, the names bound before it.  (a) fn: the let* that destructures the
+    parameters lists the positional patterns before the rest pattern.  (b) loop: the init
+    expressions are evaluated in a let* that destructures each pattern right after its init (so
+    the next init sees its names), and the loop* underneath only re-binds the carried values."""
+    defs = L.top_defs(ctx.lisp(CORE))
+    fa = defs.get("fn-arity-with-destructuring")
+    if fa is None:
+        raise AnalysisError("anchor vanished: core.lpy::fn-arity-with-destructuring")
+    bnd = None
+    for f in L.walk(fa):
+        if L.head(f) in ("let", "let*") and len(f.items) > 1 and isinstance(f.items[1], L.Vec):
+            b = f.items[1].items
+            for k, v in zip(b[0::2], b[1::2]):
+                if isinstance(k, L.Sym) and k.val == "bindings":
+                    bnd = v
+    if bnd is None:
+        raise AnalysisError("fn-arity-with-destructuring no longer computes `bindings`")
+    call = _unthread(bnd)
+    ok, why = False, f"`bindings` is not a concat of the positional and the rest bindings: {bnd.text()[:80]}"
+    if call is not None and call[1] == "concat" and len(call[2]) >= 2:
+        pos_rest = [i for i, a in enumerate(call[2]) if _mentions(a, "rest-binding")]
+        pos_defs = [i for i, a in enumerate(call[2]) if _mentions(a, "defs")]
+        if pos_rest and pos_defs:
+            ok = max(pos_defs) < min(pos_rest)
+            why = "" if ok else "the rest parameter's bindings come before the positional parameters' in the generated let*: a rest pattern cannot use a positional name, and of two equal names the positional one wins"
+    ctx.ob("C09.R7", f"{CORE}::fn-arity-with-destructuring::positional patterns are destructured before the rest pattern", CORE, bnd.line, ok, why,
+           witness="((fn [[x] & [x]] x) [1] 2) => 1, the same patterns in let give 2")
+    lp = defs.get("loop")
+    if lp is None or L.head(lp) != "defmacro":
+        raise AnalysisError("anchor vanished: core.lpy::loop macro")
+    templates = [f for f in L.walk(lp) if isinstance(f, L.Wrap) and f.tag == "syntax-quote" and any(L.head(x) == "loop*" for x in L.walk(f.form))]
+    if not templates:
+        raise AnalysisError("the loop macro no longer expands into loop*")
+    destructuring = [t for t in templates if any(L.head(x) in ("let*", "let") for x in L.walk(t.form))]
+    if not destructuring:
+        raise AnalysisError("the loop macro has no template that destructures")
+    for t in destructuring:
+        outer = t.form
+        ok = L.head(outer) in ("let*", "let") and len(outer.items) >= 3 and any(L.head(x) == "loop*" for x in outer.items[2:])
+        why = "" if ok else "the destructuring template does not evaluate the inits in a let* around the loop*: a later init expression cannot see the names an earlier pattern binds"
+        if ok:
+            # what is spliced into the outer let*: computed from the inits *and* destructure-binding
+            spl = [x.form.text() for x in L.walk(outer.items[1]) if isinstance(x, L.Wrap) and x.tag == "unquote-splicing"]
+            src = None
+            for f in L.walk(lp):
+                if L.head(f) in ("let", "let*") and len(f.items) > 1 and isinstance(f.items[1], L.Vec):
+                    b = f.items[1].items
+                    for k, v in zip(b[0::2], b[1::2]):
+                        if isinstance(k, L.Sym) and k.val in spl:
+                            src = v
+            ok = src is not None and _mentions(src, "destructure-binding") and _mentions(src, "bindings")
+            why = "" if ok else "the let* around the loop* does not interleave each init with the destructuring of its pattern"
+            lstar = next(x for x in outer.items[2:] if L.head(x) == "loop*")
+            inits_in_loop = any(isinstance(x, L.Wrap) and x.tag in ("unquote", "unquote-splicing") and _mentions(x.form, "bindings") for x in L.walk(lstar.items[1]))
+            if ok and inits_in_loop:
+                ok, why = False, "the loop* binding vector still contains the user's init expressions"
+        ctx.ob("C09.R7", f"{CORE}::loop::inits are evaluated in a let* that destructures as it goes", CORE, t.line, ok, why,
+               witness="(loop [[a b] [1 2] c a] c) => unable to resolve symbol 'a' (or the value of a Var named a)")
+    plain = [t for t in templates if t not in destructuring]
+    ctx.ob("C09.R7", f"{CORE}::loop::plain symbol bindings expand to loop* as they are", CORE, lp.line, bool(plain), "" if plain else "every loop now goes through the destructuring template")
+
+
 SELFTEST = [
+    {"name": "fn destructures the rest parameter first (the repaired defect)", "file": CORE, "expect": "C09.R7",
+     "old": "        bindings (concat\n                  (->> defs\n                       (filter #(not= :symbol (:type %)))\n                       (mapcat destructure-binding))\n                  rest-binding)\n",
+     "new": "        bindings (->> defs\n                      (filter #(not= :symbol (:type %)))\n                      (mapcat destructure-binding)\n                      (concat rest-binding))\n"},
+    {"name": "loop destructures everything inside the body only (the repaired defect)", "file": CORE, "expect": "C09.R7",
+     "old": "        `(let* [~@init-bindings]\n           (loop* [~@(interleave names names)]\n             (let* [~@inner-bindings]\n               ~@body)))))))",
+     "new": "        `(loop* [~@(interleave names (take-nth 2 (drop 1 bindings)))]\n             (let* [~@inner-bindings]\n               ~@body))))))"},
     {"name": "inline template built without the Var references of the body (the repaired defect)", "file": ANA, "expect": "C09.R6",
      "old": "    __inline_var_refs(inline_arity.body.ret, var_refs)\n", "new": ""},
     {"name": "twin: resolve_alias spells the namespace argument by keyword", "file": RT, "expect": None,
